@@ -1,15 +1,15 @@
 #!/bin/bash
-# run_parallel.sh <logfile> : the complete sensitivity self-test (every mutant + every seeded change) in three
-# workers that own disjoint sets of properties (per-property work directories never collide; the build step of the
-# driver is serialised by its own lock).  Writes one combined log in the format of run.py.
+# run_parallel.sh <logfile> : the complete sensitivity self-test (every mutant + every seeded change) in two
+# workers that own disjoint sets of properties: one for the properties of the wire / tools / lazy engines, one for
+# the generated-code engine (its generated corpus directory is shared, so those items run one after the other).
+# Writes one combined log in the format of run.py.
 export GOFLAGS=-mod=mod GOPROXY=off GOSUMDB=off GOTOOLCHAIN=local
 cd "$(dirname "$0")/.."
 log=${1:-/tmp/selftest-full.log}
 python3 selftest/run.py C01 C02 C03 C13 C14 C15 C19 C20 > $log.A 2>&1 &
-python3 selftest/run.py C04 C05 C06 C07 C08 > $log.B 2>&1 &
-python3 selftest/run.py C09 C10 C11 C12 C16 C17 C18 > $log.C 2>&1 &
+python3 selftest/run.py C04 C05 C06 C07 C08 C09 C10 C11 C12 C16 C17 C18 > $log.B 2>&1 &
 wait
-grep -h "CAUGHT\|MISSED\|PATCH-FAILED" $log.A $log.B $log.C | sort > $log
+grep -h "CAUGHT\|MISSED\|PATCH-FAILED" $log.A $log.B | sort > $log
 caught=$(grep -c CAUGHT $log); total=$(grep -c . $log)
 echo "" >> $log
 echo "$total mutants, $caught caught, $((total-caught)) not caught" >> $log
